@@ -27,7 +27,26 @@ class ObResult:
 
 def solve(hyps, goal, axioms=(), timeout_ms=10000, want_model=True):
     """returns (status, backend, secs, model_text, model).  status: proved | refuted | unknown"""
+    from .exec import has_quant
+    from .inst import pointwise_check
     t0 = time.time()
+    hyps = list(hyps)
+    qf = [h for h in hyps if not has_quant(h)]
+    qh = [h for h in hyps if has_quant(h)]
+    quantified = bool(qh) or has_quant(goal)
+    if quantified:
+        for rounds in (1, 2):
+            try:
+                r = pointwise_check(qf, qh, goal, axioms, timeout_ms, rounds=rounds)
+            except z3.Z3Exception:
+                r = "unknown"
+            if r == "unsat":
+                return "proved", f"z3-{z3.get_version_string()}-pointwise{rounds}", time.time() - t0, None, None
+        from .finite import finite_refute
+        fr = finite_refute(hyps, goal, axioms, timeout_ms=min(timeout_ms, 5000))
+        if fr is not None:
+            mt, m, ctx, n = fr
+            return "refuted", f"z3-{z3.get_version_string()}-finite-universe{n}", time.time() - t0, mt, m
     s = z3.Solver()
     s.set("timeout", timeout_ms)
     for a in axioms:
@@ -47,7 +66,7 @@ def solve(hyps, goal, axioms=(), timeout_ms=10000, want_model=True):
     st2, secs2 = cvc5_check(smt, timeout_ms)
     if st2 == "unsat":
         return "proved", "cvc5", dt + secs2, None, None
-    return "unknown", "z3+cvc5", dt + secs2, s.reason_unknown(), None
+    return "unknown", "z3+cvc5", time.time() - t0, s.reason_unknown(), None
 
 
 def cvc5_check(smt, timeout_ms):
@@ -174,7 +193,7 @@ def verify_function(ex, key, timeout_ms=10000, extra_pre=()):
                 rep.raise_paths += 1
                 if not spec.may_raise:
                     oid = f"{key}.no_raise.path{i}@{out.val.where}"
-                    status, be, secs, mt, m = solve(out.st.pc, z3.BoolVal(False), axioms, timeout_ms)
+                    status, be, secs, mt, m = solve(out.st.hyps, z3.BoolVal(False), axioms, timeout_ms)
                     rep.results.append(ObResult(oid, "no-raise", status, be, secs, spec.raise_props,
                                                 detail=f"{out.val.exc!r} raised at line {out.val.where}", model=mt,
                                                 meta={"z3model": m, "args": args, "path": i}))
@@ -186,7 +205,7 @@ def verify_function(ex, key, timeout_ms=10000, extra_pre=()):
                 if isinstance(goal, bool) and goal:
                     rep.results.append(ObResult(f"{key}.{c.name}.path{i}", "ensures", "proved", "trivial", 0.0, c.props))
                     continue
-                status, be, secs, mt, m = solve(out.st.pc, z3_bool(goal), axioms, timeout_ms)
+                status, be, secs, mt, m = solve(out.st.hyps, z3_bool(goal), axioms, timeout_ms)
                 rep.results.append(ObResult(f"{key}.{c.name}.path{i}", "ensures", status, be, secs, c.props, model=mt,
                                             meta={"z3model": m, "args": args, "result": res, "path": i}))
             if len(rep.path_samples) < 3:
